@@ -15,6 +15,8 @@ R4  trapezoid update shape: mass[1:] = mass[0] − cumtrapz(1/sgr), mirrored
 R5  MTOW clamp: in the fuel-dependent initial-mass iterations mass[0] is only
     ever assigned from min(…, mtow); the two sibling iterations agree up to the
     reserve term.
+R7  assign_parameters_fromdict assigns every entry it is given (no value-based
+    skipping).
 R6  equation conformance (T-ALG): every straight-line BADA-3 formula equals the
     independent transcription in reference_equations.py as an exact rational
     function.
@@ -373,7 +375,35 @@ def rule_equations(ctx):
            'an engine type is mapped to the wrong fuel-flow/thrust model')
 
 
+def rule_assign_all(ctx):
+    """R7: the coefficients the engine model reads are the ones that were assigned: assign_parameters_fromdict stores
+    every entry of the dictionary, whatever its value (0.0 is a legitimate coefficient)."""
+    from ..astutil import ancestors
+    pm = ctx.prog.module(PARAMS)
+    fi = pm.func('Bada3AircraftParameters.assign_parameters_fromdict')
+    sets = [c for c in calls_in(fi.node) if call_name(c) == 'setattr']
+    ctx.floor('C19-R7', len(sets), 1, 'setattr in assign_parameters_fromdict')
+    for c in sets:
+        lp = next((a for a in ancestors(c) if isinstance(a, (ast.For, ast.While))), None)
+        inner = [norm(t) for t, pol, o in guards_of(stmt_of(c)) if lp is not None and any(a is lp for a in ancestors(o))]
+        esc = [norm(t) for x in (ast.walk(lp) if lp is not None else []) if isinstance(x, (ast.Continue, ast.Break))
+               for t, pol, o in guards_of(x)] if lp is not None else []
+        has_esc = lp is not None and any(isinstance(x, (ast.Continue, ast.Break)) for x in ast.walk(lp))
+        ok = lp is not None and not inner and not has_esc
+        ctx.ob('C19-R7', fi, f'{norm(c)} for every entry', ok, 'unconditional in the loop over the dictionary' if ok else
+               (f'entries are skipped when {inner or esc}: a coefficient that is legitimately zero (Ctc3, Ctc4, Ctc5 …) is not '
+                'assigned, so the object keeps its previous value (or None) and thrust limits are evaluated with coefficients '
+                'nobody supplied'), line=c.lineno)
+        if lp is not None and len(c.args) == 3:
+            key, val = norm(c.args[1]), norm(c.args[2])
+            tgt = norm(lp.target).strip('()')
+            ok2 = (tgt == key and val == f'{norm(lp.iter)}[{key}]') or (tgt == f'{key}, {val}' and norm(lp.iter).endswith('.items()'))
+            ctx.ob('C19-R7', fi, f'setattr(self, {key}, {val})', ok2, 'each key receives its own value' if ok2 else
+                   'key and value do not come from the same dictionary entry', line=c.lineno, nontrivial=False)
+
+
 def run(ctx):
+    rule_assign_all(ctx)
     rule_protocol(ctx)
     rule_thrust(ctx)
     rule_fuelflow(ctx)
